@@ -98,6 +98,13 @@ hashlib_name = z3.Function('manifest_hashlib_name', z3.StringSort(), z3.StringSo
 OptU = opt_sort(U)
 
 
+def sorted_keys(cks):
+    """the term the engine builds for sorted(d) of a dict d (A-dictkeys: exactly the keys)"""
+    from vp.lib import sort_tag
+    f = z3.Function('py_keys_sorted_' + sort_tag(cks.sort()), cks.sort(), z3.SeqSort(z3.StringSort()))
+    return f(cks)
+
+
 def hashes_membership(hv):
     """-> fn(k) z3 Bool: k is one of the requested hash names.  hv is the
     view of the `hashes` argument: dict (Array Str->Opt Str), Seq(Str), or a python list/tuple"""
@@ -111,16 +118,29 @@ def hashes_membership(hv):
 
 
 def all_supported(hv):
-    """every requested name is supported -- an uninterpreted predicate of the
-    collection; its instances (all_supported(hv) and k in hv => hash_supported(k))
-    are supplied where an element is used (no quantifier in the path condition)"""
-    if hv is None or (isinstance(hv, (list, tuple)) and not hv):
-        return z3.BoolVal(True)
-    if isinstance(hv, (list, tuple)):
-        return z3.And(*[hash_supported(x) for x in hv])
-    f = z3.Function('all_supported_' + ''.join(ch if ch.isalnum() else '_' for ch in hv.sort().sexpr()),
-                    hv.sort(), z3.BoolSort())
-    return f(hv)
+    """every requested name is a GLEP 74 name whose algorithm hashlib provides -- stated with the two
+    predicates the callee contracts use (manifest_hashes_to_hashlib, hash_file) over the canonical sorted
+    sequence of the names; instances (all_supported(hv) and k in hv => hash_supported(k)) are supplied
+    where an element is used, so no quantifier enters the path condition"""
+    from vp.lib import sort_tag
+    SeqStr = z3.SeqSort(z3.StringSort())
+    if hv is None:
+        srt = z3.Empty(SeqStr)
+    elif isinstance(hv, (list, tuple)):
+        if not hv:
+            srt = z3.Empty(SeqStr)
+        else:
+            units = [z3.Unit(x) for x in hv]
+            seq = units[0] if len(units) == 1 else z3.Concat(*units)
+            srt = z3.Function('py_sorted_' + sort_tag(SeqStr), SeqStr, SeqStr)(seq)
+    elif z3.is_array_sort(hv):
+        srt = sorted_keys(hv)
+    else:
+        srt = z3.Function('py_sorted_' + sort_tag(hv.sort()), hv.sort(), hv.sort())(hv)
+    alltab = z3.Function('hashes_all_in_table', SeqStr, z3.BoolSort())
+    mapped = z3.Function('map_hashlib_names', SeqStr, SeqStr)
+    allav = z3.Function('all_hashlib_available', SeqStr, z3.BoolSort())
+    return z3.And(alltab(srt), allav(z3.Concat(mapped(srt), z3.Unit(z3.StringVal('__size__')))))
 
 
 def supported_instance(hv, k):
@@ -245,13 +265,6 @@ def file_facts(p):
                 present=z3.Or(E == 0, E == ENXIOISH[0], E == ENXIOISH[1]),
                 reg=FS.is_reg(p), size=FS.fs_size(p), mtime=FS.fs_mtime(p), data=FS.fs_data(p),
                 dev=FS.fs_dev(p), FE=FS.fs_fopen_err(p), RE=FS.fs_read_err(p))
-
-
-def sorted_keys(cks):
-    """the term the engine builds for sorted(d) of a dict d (A-dictkeys: exactly the keys)"""
-    from vp.lib import sort_tag
-    f = z3.Function('py_keys_sorted_' + sort_tag(cks.sort()), cks.sort(), z3.SeqSort(z3.StringSort()))
-    return f(cks)
 
 
 OptReal = opt_sort(z3.RealSort())
@@ -437,3 +450,53 @@ def _(c):
     def untouched_on_error(s):
         return z3.And(s.e.size == s.old.e.size, s.e.checksums == s.old.e.checksums)
     c.exc_ensures('entry-untouched-on-failure', 'Exception', untouched_on_error, props=['C06', 'C10'])
+
+
+# ---- body of get_file_metadata against the behaviour table ------------------
+
+def _gfm_body_contract():
+    from vp.contract import REGISTRY
+    c = REGISTRY[('gemato/verify.py', 'get_file_metadata')]
+    c.loop(1, header='for (ek, k) in zip(e_hashes, hashes)', vars={'ret': DictT(Str, Any), 'ek': None, 'k': None}, inv=[])
+
+    def matches_table(s):
+        """the yields and the terminal outcome of this path are those of exactly one row of gfm_cases
+        (content of the final dict: bounded stand-in C17)"""
+        p = s.path
+        hv = s.hashes
+        ys = s.raw_yields
+        term = s.terminal
+        rows = []
+        for nm, cond, exp, tcls, terr in gfm_cases(p, hv):
+            if len(exp) != len(ys):
+                continue
+            if (tcls is None) != (term is None):
+                continue
+            if tcls is not None and not term.isinstance(tcls):
+                continue
+            conj = [cond]
+            for y, e in zip(ys, exp):
+                if isinstance(e, tuple) and e[0] == 'type':
+                    conj.append(s._it.eq(y.items[0], VInt(e[1])))
+                elif isinstance(e, tuple) and e[0] == 'dict':
+                    pass
+                else:
+                    conj.append(s._it.eq(y, e))
+            if tcls == 'OSError':
+                conj.append(term.attr('errno') == terr)
+            rows.append(z3.And(*conj))
+        return z3.Or(*rows) if rows else z3.BoolVal(False)
+    c.ensures('behaviour-is-a-row-of-the-table', matches_table, internal=True)
+    c.exc_ensures('failure-is-a-row-of-the-table', 'Exception', matches_table, internal=True)
+
+    def fd_closed(s):
+        """C06/C18: whenever the generator ends by an exception after a successful os.open, the descriptor is closed"""
+        opened = s.ghost('open_fds', [])
+        closed = s.ghost('closed_fds', [])
+        if not opened:
+            return True
+        return z3.Or(*[opened[0] == c_ for c_ in closed]) if closed else z3.BoolVal(False)
+    c.exc_ensures('descriptor-closed-on-failure', 'Exception', fd_closed, internal=True)
+
+
+_gfm_body_contract()
